@@ -2,6 +2,7 @@ SPECIFICATION Spec
 CONSTANTS
   Denoms = {"eth", "btc"}
   Mods <- Mods0
+  AddrMode = "simple"
   MaxTx = 2
   Fuel = 4
   Level = 2
